@@ -28,6 +28,7 @@ GENERATORS = {
     "Required_gen": "translator.gen_required",
     "Effects_gen": "translator.gen_effects",
     "Small_gen": "translator.gen_small",
+    "RewriterTable_gen": "translator.gen_rewriter",
 }
 
 
